@@ -14,7 +14,7 @@ CONE = ["Proofs/GenerateProofs.v", "Proofs/TrimMapProofs.v", "Proofs/ReprProofs.
 MODEL_FUNCTIONS = ["connect_coding_graph", "remove_useless", "latter_map_to_accessor", "accessor_to_latter_map",
                    "connect_valid_graph", "obtain_vertices", "obtain_latters", "obtain_formers"]
 RULE = ("vertex masks of order 1..5 (quick: 3000 random masks at densities 0.2..0.97 x thresholds 1..4 x bool / 0-1 int dtype; "
-        "thorough: ALL 65536 order-2 masks x thresholds 1..4, plus random masks of order 1, 3, 4, 5), chain masks of order 2..6 (consecutive k-mers of a random de Bruijn sequence of order k-1: out-degree-1 chains of up to 4^(k-1) vertices into a small branching core), masks coming from "
+        "thorough: ALL 65536 order-2 masks x thresholds 1..4, plus random masks of order 1, 3, 4, 5), chain masks of order 2..6 (consecutive k-mers of a random de Bruijn sequence of order k-1: out-degree-1 chains of up to 4^(k-1) vertices into a small branching core), funnel masks (equal-length sibling chains merging into an information-free sink beside a live core; trees hanging off a core), masks coming from "
         "LocalBioFilters; for every case the returned accessor and vertex description are compared with an independent "
         "greatest-fixed-point + reachability oracle written with Python sets, the input mask is checked to be unmodified, a "
         "random sub-mask is checked to give a sub-graph, and for t >= 2 the latter-map trimming (remove_useless through "
@@ -58,6 +58,12 @@ def payloads(rng, tier):
         for _ in range(cnt):
             yield "coding_graph", {"k": kk, "mask": gen.chain_mask(rng, kk), "t": rng.choice([1, 1, 1, 2]),
                                    "dtype": rng.choice(["bool", "int"])}
+    # funnel masks (sibling chains of equal length merging into a doomed sink next to a live core) and trees hanging off a core:
+    # several successors of one vertex lose their last arc in the same sweep of the threshold-1 cascade
+    for i in range({"quick": 600, "thorough": 6000, "search": 500}[tier]):
+        kk = rng.choice([2, 3, 3, 3, 4])
+        yield "coding_graph", {"k": kk, "mask": gen.funnel_mask(rng, kk) if i % 4 else gen.core_with_tails(rng, kk),
+                               "t": rng.choice([1, 1, 1, 2]), "dtype": rng.choice(["bool", "int"])}
     for i in range(n):
         k = rng.choice([1, 2, 2, 2, 3, 3, 4, 5][: kmax + 3])
         k = min(k, kmax)
